@@ -73,14 +73,14 @@ def parse_output(out, res):
 
 
 def run(module, cfg=None, env=None, workers=1, heap='3g', timeout=3600,
-        extra=None, allow_violation=False, label=None):
+        extra=None, allow_violation=False, label=None, cfg_path=None):
     """Run TLC on spec/<module>.tla with spec/<cfg>.cfg."""
     cfg = cfg or module
     meta = tempfile.mkdtemp(prefix='tlc-', dir=config.workdir('tlc'))
     cmd = ['java', '-Xmx' + heap, '-XX:+UseParallelGC',
            '-cp', config.TLA_JAR + ':' + config.TLA_DEPS, 'tlc2.TLC',
            '-workers', str(workers), '-metadir', meta, '-noGenerateSpecTE',
-           '-config', os.path.join(config.SPEC, cfg + '.cfg')]
+           '-config', cfg_path or os.path.join(config.SPEC, cfg + '.cfg')]
     cmd += list(extra or [])
     cmd.append(os.path.join(config.SPEC, module + '.tla'))
     full_env = dict(os.environ)
